@@ -189,7 +189,9 @@ let run_case ~(checked : bool) ~(ffr : bool) (nslots : int) (slot : int) (blk : 
           (* the device is dead: keep the log prefix, the memory of the crash, nothing armed *)
           let d0 = Mgr.with_mem before mem' in
           let keep = firstn k newops in
-          dev := flatten fl blk { d0 with Mgr.dlog = List.rev_append keep before.Mgr.dlog } (firstn (k + 1) newops) [];
+          (* applied: the first k operations; the interrupted one only if it is a (torn) program *)
+          let torn_range = match List.nth_opt newops k with Some (Mgr.FProg (a, len, _, _)) -> [(int_of_n a, int_of_n len)] | _ -> [] in
+          dev := flatten fl blk { d0 with Mgr.dlog = List.rev_append keep before.Mgr.dlog } keep torn_range;
           dead := true; crash := None; sess := None;
           "X", keep
         | _ -> dev := flatten fl blk !dev newops []; tok, newops in
